@@ -409,13 +409,29 @@ func c18IdentityKey(c *Ctx, p *Prog) {
 			bad = "identityKey is built by " + p.CalleeID(call.Common())
 		}
 	}
-	if n < 2 && bad == "" {
-		bad = fmt.Sprintf("%d assignments of the identity key (expected generation and reload)", n)
+	// generation may go through temporaries instead of a scratch state object: every NewKeypair call
+	// of the state-file code is judged, wherever its result goes
+	nGen := 0
+	if sa := p.Func("transports/obfs4:serverStateFromArgs"); sa != nil {
+		for fn := range p.Reachable(sa) {
+			if !p.inModule(fn) || relPkg(fn.Pkg.Pkg.Path()) != "transports/obfs4" {
+				continue
+			}
+			for _, call := range p.CallsIn(fn, "$M/common/ntor.NewKeypair") {
+				nGen++
+				if k, ok := call.Common().Args[0].(*ssa.Const); !ok || k.Value == nil || k.Value.String() != "false" {
+					bad = "the identity key is generated with NewKeypair(" + p.valString(call.Common().Args[0]) + ") at " + p.InstrPos(call) + ": with Elligator the generated public key is not the one KeypairFromHex derives from the stored private key"
+				}
+			}
+		}
+	}
+	if (n < 1 || nGen < 1) && bad == "" {
+		bad = fmt.Sprintf("%d assignments of the identity key and %d generation sites (expected reload and generation)", n, nGen)
 	}
 	if bad != "" {
 		ob.Violate("%s", bad)
 	} else {
-		ob.HoldNT("%d assignment(s): KeypairFromHex / NewKeypair(false)", n)
+		ob.HoldNT("%d assignment(s), %d generation site(s): KeypairFromHex / NewKeypair(false)", n, nGen)
 	}
 }
 
